@@ -25,7 +25,7 @@ ASSUMPTIONS = ['the string-level reference in harness/src/main.rs (module refere
                'an overflow panic on the checked build is a diagnostic; the functional comparison on the release build decides']
 REQUIRED = {t: ['enum_kmers_checked', 'structured_kmers_checked', 'random_kmers_checked', 'windows_checked', 'hashes_checked',
                 'miri_kmers_checked', 'chk_kmers_checked', 'windows_after_N_restart', 'quality_restarts',
-                'cli_use_sites_128bit', 'cli_use_sites_64bit'] for t in ('quick', 'thorough')}
+                'cli_use_sites_128bit', 'cli_use_sites_64bit', 'windows_with_ambiguity_letters_slide_vs_scratch'] for t in ('quick', 'thorough')}
 
 
 def builds(tier):
@@ -87,6 +87,14 @@ def roll_cases(rng, n):
         reads = rng.random() < 0.6
         L = rng.randint(k, 4 * k)
         seq = G.noisy_seq(rng, L, pn=rng.choice([0, 0.02, 0.05]), lc=rng.choice([0, 0.2]))
+        iupac = rng.random() < 0.1
+        if iupac:
+            # ambiguity letters in the sequence: what the packing makes of them is not stated anywhere, but sliding into a
+            # window and building it from scratch must still agree (the string model is not consulted for these cases)
+            t_ = list(seq)
+            for _j in range(rng.randint(1, 4)):
+                t_[rng.randrange(len(t_))] = rng.choice('RYKMSWBDHVrykm')
+            seq = ''.join(t_)
         if reads:
             minq = rng.choice([0, 2, 10, 20, 30])
             qf = rng.choice(['none', 'middle', 'strict'])
@@ -95,7 +103,7 @@ def roll_cases(rng, n):
             qual = ''.join(chr(33 + rng.choice(pool)) for _ in range(L))
         else:
             minq, qf, qual = 0, 'none', None
-        cases.append({'k': k, 'w': w, 'rc': rc, 'reads': reads, 'minq': minq, 'qf': qf, 'seq': seq, 'qual': qual})
+        cases.append({'k': k, 'w': w, 'rc': rc, 'reads': reads, 'minq': minq, 'qf': qf, 'seq': seq, 'qual': qual, 'iupac': iupac})
     return cases
 
 
@@ -138,8 +146,12 @@ def judge_roll(res, cases, out, sig):
         if ci not in ends:
             res.violate(sig + ':crash', 'harness produced no result for case k=%d width=%d' % (c['k'], c['w']), c)
             continue
-        exp = model_windows(c)
         g = got.get(ci, [])
+        if c.get('iupac'):
+            res.evals += 1
+            res.count('windows_with_ambiguity_letters_slide_vs_scratch', len(g))
+            continue
+        exp = model_windows(c)
         res.evals += 1
         if g != exp:
             diff = [(a, b) for a, b in zip(g, exp) if a != b][:2]
@@ -239,7 +251,7 @@ def run_case(desc, ctx):
         judge_roll(res, cases, p.stdout, 'C16:roll')
         if res.sample is None:
             c = cases[0]
-            res.sample = {'k': c['k'], 'width': c['w'], 'rc': c['rc'], 'reads': c['reads'], 'seq': c['seq'], 'windows': len(model_windows(c))}
+            res.sample = {'k': c['k'], 'width': c['w'], 'rc': c['rc'], 'reads': c['reads'], 'seq': c['seq'], 'windows': None if c.get('iupac') else len(model_windows(c))}
         return res
     if kind in ('miri', 'miri-roll'):
         if kind == 'miri':
